@@ -75,7 +75,10 @@ class Program:
         return m[0] if len(m) == 1 else None
 
     def closures_of(self, path):
-        return sorted(p for p in self.bodies if p.startswith(path + "::{closure#"))
+        out = [p for p in self.bodies if p.startswith(path + "::{closure#")]
+        for h in (self.bodies.get(path) or {}).get("inlined") or []:
+            out += [p for p in self.bodies if p.startswith(h + "::{closure#")]
+        return sorted(out)
 
     # ------------------------------------------------------------------ calls
     def calls(self, path):
@@ -223,6 +226,97 @@ class Program:
         return out
 
     # ------------------------------------------------------------------ CFG
+    # ------------------------------------------------------------------ MIR-level inlining of single-use helpers
+    def inline_single_use_helpers(self, root, skip=None, max_rounds=6):
+        """Splice into `root` the bodies of the crate-local, non-public functions that `root` calls and that have
+        exactly one call site in the whole program (helpers extracted for readability), so that rules anchored in
+        `root` see the same statements whether or not the code was split into helpers.  Functions returning
+        Result/Option (error-propagating units), recursive ones and names matching `skip` are left alone.
+        Returns the list of inlined paths (also stored in the body as `inlined`)."""
+        import copy
+        if root not in self.bodies:
+            return []
+        crate = self.bodies[root].get("crate")
+        done = list(self.bodies[root].get("inlined") or [])
+        for _ in range(max_rounds):
+            body = self.bodies[root]
+            # call-site census over the whole program
+            count = {}
+            for p in self.bodies:
+                for _, t in self.calls(p):
+                    n = self.callee_name(t)
+                    count[n] = count.get(n, 0) + 1
+            target = None
+            for blk in body["blocks"]:
+                t = blk["term"]
+                if t["k"] != "call" or blk.get("cleanup"):
+                    continue
+                n = self.callee_name(t)
+                k = self.bodies.get(n)
+                if (k is None or n == root or k.get("crate") != crate or str(k.get("vis")) == "Public" or count.get(n) != 1
+                        or "{closure" in n or (skip and re.search(skip, n)) or n in done or not t.get("targets")):
+                    continue
+                rty = k["locals"][0]["ty"]
+                if rty.startswith("core::result::Result") or rty.startswith("core::option::Option"):
+                    continue
+                if len(t["args"]) != k["argc"]:
+                    continue
+                if any(self.callee_name(tt) == n for _, tt in self.calls(n)):
+                    continue
+                target = (blk, t, n, k)
+                break
+            if target is None:
+                break
+            blk, t, n, k = target
+            new = copy.deepcopy(body)
+            loff = len(new["locals"])
+            boff = len(new["blocks"])
+
+            def remap(x):
+                if isinstance(x, dict):
+                    if "l" in x and "p" in x and isinstance(x["l"], int) and isinstance(x["p"], list):
+                        return {"l": x["l"] + loff, "p": [({"i": pr["i"] + loff} if isinstance(pr, dict) and set(pr) == {"i"} else remap(pr)) for pr in x["p"]]}
+                    return {kk: remap(vv) for kk, vv in x.items()}
+                if isinstance(x, list):
+                    return [remap(v) for v in x]
+                return x
+
+            for l in k["locals"]:
+                nl = dict(l)
+                nl["id"] = l["id"] + loff
+                new["locals"].append(nl)
+            nblk = next(b_ for b_ in new["blocks"] if b_["id"] == blk["id"])
+            for i, a in enumerate(t["args"]):
+                nblk["stmts"].append({"dst": {"l": loff + i + 1, "p": []}, "rv": {"k": "use", "ops": [a]}, "span": t.get("span")})
+            ret_target = t["targets"][0]
+            nblk["term"] = {"k": "goto", "targets": [boff]}
+            for kb in k["blocks"]:
+                cb = remap(copy.deepcopy(kb))
+                cb["id"] = kb["id"] + boff
+                tt = cb["term"]
+                if tt.get("targets"):
+                    tt["targets"] = [x + boff for x in tt["targets"]]
+                if tt.get("unwind") is not None:
+                    tt["unwind"] = tt["unwind"] + boff
+                if tt["k"] == "return":
+                    cb["stmts"].append({"dst": t["dst"], "rv": {"k": "use", "ops": [{"move": {"l": loff, "p": []}}]}, "span": t.get("span")})
+                    cb["term"] = {"k": "goto", "targets": [ret_target]}
+                elif tt["k"] == "resume" and t.get("unwind") is not None:
+                    cb["term"] = {"k": "goto", "targets": [t["unwind"]]}
+                new["blocks"].append(cb)
+            done.append(n)
+            new["inlined"] = list(done)
+            self.bodies[root] = new
+            # the crate entry of the body lists must see the new body as well
+            for c in self.crates.values() if isinstance(getattr(self, "crates", None), dict) else []:
+                for key in ("bodies",):
+                    if isinstance(c.get(key), dict) and root in c[key]:
+                        c[key][root] = new
+            self._edges = None
+            self._cfg.pop(root, None)
+            self._slicers.pop(root, None)
+        return done
+
     def cfg(self, path):
         if path in self._cfg:
             return self._cfg[path]
